@@ -355,7 +355,7 @@ theorem scalar_export_WF (sc : Scalar) (h : sc.InRange) : sc.image.toJson.WF := 
   cases sc with
   | bytes b => simp only [Scalar.image, SVal.toJson, Json.WF]; exact bytes_toJson_WF b h
   | str s => simp [Scalar.image, SVal.toJson, Json.WF]
-  | int i => simpa [Scalar.image, SVal.toJson, Json.WF, JNum.WF] using h
+  | int i => simpa [Scalar.image, SVal.toJson, Json.WF, JNum.WF, Scalar.InRange] using h
   | uint n =>
     simp only [Scalar.InRange] at h
     simp only [Scalar.image, SVal.toJson]
@@ -371,8 +371,8 @@ theorem scalar_export_WF (sc : Scalar) (h : sc.InRange) : sc.image.toJson.WF := 
     split
     · rename_i hf; simpa [Json.WF, JNum.WF] using hf
     · simp [Json.WF]
-  | counter a i => simpa [Scalar.image, SVal.toJson, Json.WF, JNum.WF] using h
-  | timestamp i => simpa [Scalar.image, SVal.toJson, Json.WF, JNum.WF] using h
+  | counter a i => simpa [Scalar.image, SVal.toJson, Json.WF, JNum.WF, Scalar.InRange] using h
+  | timestamp i => simpa [Scalar.image, SVal.toJson, Json.WF, JNum.WF, Scalar.InRange] using h
   | bool b => simp [Scalar.image, SVal.toJson, Json.WF]
   | null => simp [Scalar.image, SVal.toJson, Json.WF]
 
